@@ -23,6 +23,8 @@ Decided clauses:
        confirmed-by-reading exception.
   R7.4 cofactor clearing on every hash-to-group / from-uniform path before encoding; the raw
        Elligator map is reachable only from functions that clear the cofactor.
+  R7.15 every limb sc25519_mul / sc25519_reduce pack into the scalar bytes (except the top one) is the remainder of its own carry step.
+  R7.14 ristretto255_frombytes applies "is negative" to T and "is zero" to Y (the rejection conditions of RFC 9496 4.3.1).
   R7.13 expand_message_xmd never writes its b_0 buffer inside the block loop (every block chains b_0 xor b_(i-1)).
   R7.12 in the Edwards scalar multiplications bit 255 of the scalar never reaches ge25519_scalarmult / _base (which require
         a[31] <= 127): on every path - with and without clamping - byte 31 of the working copy is last written with a value whose
@@ -528,6 +530,40 @@ def run(ctx, chk):
                "the second block on the chaining value is xored with a modified b_0, so outputs longer than one hash block differ from "
                "RFC 9380" % (bad[1], f.loc(bad[0])), key="R7.13 %s b0" % name)
     chk.floor("R7.13", "expand_message_xmd implementations", n713, 2)
+
+    # ---- R7.15 the scalar API (mul, reduce and everything built on them) encodes fully carried limbs (same engine as C06's R6.6) ----
+    knownbits.reduced_limb_rule(prog, chk, "R7.15", ("sc25519_mul", "sc25519_reduce"), floor=22)
+    # ---- R7.14 Ristretto decoding rejects on the coordinates RFC 9496 4.3.1 names: "t is negative" and "y == 0" -----------------------
+    # (the third condition, was_square, is the result of ristretto255_sqrt_ratio_m1; canonicity is R7.6). The predicates are applied
+    # to fields of the decoded point: which field each one looks at is read from the getelementptr on ge25519_p3 (X, Y, Z, T = 0..3).
+    rf = prog.need("ristretto255_frombytes", rule="R7.14")
+    SPEC = {"fe25519_isnegative": (3, "T"), "fe25519_iszero": (1, "Y")}
+    n714 = 0
+    for i, ins in enumerate(rf.insts):
+        c = ins.get("callee")
+        if ins["op"] != "call" or not c or c[0] != "g" or c[1] not in SPEC:
+            continue
+        o = ins["ops"][0]
+        field = None
+        for _ in range(8):
+            if o[0] != "v":
+                break
+            d = rf.insts[o[1]]
+            if d["op"] == "getelementptr" and d.get("sty") == "%struct.ge25519_p3" and d["ops"][0] == ["a", 0] and d.get("idx") and len(d["idx"]) >= 2:
+                field = d["idx"][1]
+                break
+            if d["op"] in ("getelementptr", "bitcast"):
+                o = d["ops"][0]
+            else:
+                break
+        if field is None:
+            continue                       # applied to a temporary: not judged
+        n714 += 1
+        want = SPEC[c[1]]
+        chk.ob("R7.14", rf, "%s is applied to h->%s (RFC 9496 4.3.1)" % (c[1], want[1]), field == want[0], loc=rf.loc(i),
+               detail="" if field == want[0] else "applied to h->%s: the decoder rejects / accepts a different set of encodings than the RFC "
+               "(e.g. t == 0 also holds for the identity, whose encoding 00..00 is valid)" % "XYZT"[field], key="R7.14 %s field" % c[1])
+    chk.floor("R7.14", "coordinate predicates in ristretto255_frombytes", n714, 2)
 
     # public generators write their output only through cofactor-clearing maps or validated addition
     okw = {f.key for f in clearing} | {need("crypto_core_ed25519_add").key}
